@@ -61,3 +61,13 @@ Theorem C08_F2_refuted :
   = [(5318, 1)].
 Proof. exact F2_eom_refused_while_som_pending. Qed.
 Print Assumptions C08_F2_refuted.
+
+(** * For the whole discrete receiver and all audio *)
+From Sameold Require Import Model.Framer Model.Squelch Model.Receiver Proofs.ClockP.
+
+(** in EVERY state the receiver can reach, on any item stream, the pending slot holds no EndOfMessage and
+    whatever it holds is due at most MAX_INTERBURST_SYMBOLS after the last burst handed to the assembler *)
+Theorem C08_receiver_hold_is_bounded : forall c src,
+  PInv (r_asm (snd (run_core c core_init src))) (last_burst 0 (asm_calls c core_init src)).
+Proof. exact receiver_hold_bounded. Qed.
+Print Assumptions C08_receiver_hold_is_bounded.
